@@ -234,6 +234,39 @@ def find_bin_consts():
     return top, low
 
 
+def dispatch_tests():
+    """the size tests that decide between bins and parent, from the source text:
+    s_sba_alloc `if (size <op> s_max_bin_size)` (generated as servedByBin), the three tests of s_sba_mem_realloc and
+    the position of the overflow check of aws_mem_calloc (before the dispatch to the allocator's mem_calloc)"""
+    src = re.sub(r"/\*.*?\*/", " ", open(os.path.join(cbuild.REPO, "source", "allocator_sba.c")).read(), flags=re.S)
+    m = re.search(r"static\s+void\s*\*s_sba_alloc\s*\([^)]*\)\s*\{\s*if\s*\(\s*size\s*(<=|<)\s*s_max_bin_size\s*\)\s*\{\s*"
+                  r"struct\s+sba_bin\s*\*bin\s*=\s*s_sba_find_bin\(sba,\s*size\);", src)
+    if not m:
+        raise GenError("s_sba_alloc no longer starts with `if (size <= s_max_bin_size) { bin = s_sba_find_bin(sba, size); ...`: "
+                       "which requests are served by a bin is not what the model says")
+    if not re.search(r"\}\s*return\s+aws_mem_acquire\(sba->allocator,\s*size\);\s*\}", src):
+        raise GenError("s_sba_alloc: requests not served by a bin no longer go to aws_mem_acquire(sba->allocator, size)")
+    rm = re.search(r"static\s+void\s*\*s_sba_mem_realloc\s*\([^)]*\)\s*\{(.*?)\n\}\n", src, re.S)
+    need = [r"if\s*\(\s*old_size\s*>\s*s_max_bin_size\s*&&\s*new_size\s*>\s*s_max_bin_size\s*\)", r"if\s*\(\s*new_size\s*==\s*0\s*\)",
+            r"if\s*\(\s*old_size\s*>\s*new_size\s*\)\s*\{\s*return\s+old_ptr;", r"memcpy\(new_mem,\s*old_ptr,\s*old_size\);"]
+    pos = 0
+    for pt in need:
+        mm = rm and re.compile(pt).search(rm.group(1), pos)
+        if not mm:
+            raise GenError("s_sba_mem_realloc: the modelled case analysis is not in the source any more (missing / out of order: " + pt + ")")
+        pos = mm.end()
+    asrc = re.sub(r"/\*.*?\*/", " ", open(os.path.join(cbuild.REPO, "source", "allocator.c")).read(), flags=re.S)
+    cm = re.search(r"void\s*\*aws_mem_calloc\s*\([^)]*\)\s*\{(.*?)\n\}\n", asrc, re.S)
+    if not cm:
+        raise GenError("aws_mem_calloc not recognised")
+    chk = re.search(r"AWS_FATAL_POSTCONDITION\(\s*!aws_mul_size_checked\(num,\s*size,\s*&required_bytes\)", cm.group(1))
+    disp = re.search(r"if\s*\(\s*allocator->mem_calloc\s*\)", cm.group(1))
+    if not chk or not disp or chk.start() > disp.start():
+        raise GenError("aws_mem_calloc: the checked multiplication num*size no longer precedes the dispatch to mem_calloc "
+                       "(s_sba_mem_calloc multiplies unchecked): the model's calloc (total = checked product) is not what the source does")
+    return {"<=": "size ≤ maxBinSize", "<": "size < maxBinSize"}[m.group(1)]
+
+
 def purge_bounds():
     """(lean text, C text) of page_start, page_end and the range test of the purge loop, from the source"""
     src = open(os.path.join(cbuild.REPO, "source", "allocator_sba.c")).read()
@@ -262,6 +295,7 @@ def regen(ctx):
     pb = purge_bounds()
     check_critical_sections()
     fb_top, fb_low = find_bin_consts()
+    served = dispatch_tests()
     lean = f"""/-! GENERATED by props/c03.py from /repo's source/allocator_sba.c (compiled sizeof/offsetof probe + source text) — do not edit. -/
 namespace AwsVerif.Gen.SbaConsts
 
@@ -279,6 +313,10 @@ def tagValue : Nat := {c['TAG_VALUE']}
 def hdrSize : Nat := {c['HDR_SIZE']}
 /-- width in bits of page_header.alloc_count -/
 def countBits : Nat := {c['COUNT_BITS']}
+
+/-- s_sba_alloc: the request is served by a bin iff this holds (test as written in the source), otherwise by the parent -/
+def servedByBin (size : Nat) : Prop := {served}
+instance (size : Nat) : Decidable (servedByBin size) := by unfold servedByBin; exact inferInstance
 
 /-- s_sba_find_bin: `aws_sub_size_saturating(<findBinTop> - lz, <findBinLow>)` -/
 def findBinTop : Nat := {fb_top}
@@ -593,6 +631,49 @@ def case_parents(rng, parent):
     return b.finish()
 
 
+HUGE = [2**31 - 1, 2**31, 2**31 + 1, 2**32 - 1, 2**32, 2**32 + 5, 2**32 + 33, 2**33 + 512, 2**40, 2**40 + 31, 2**41]
+UNBACKED = [2**41 + 1, 2**48, 2**63, "HALF", "HALF+1", "MAX-4096"]
+
+
+def _val(x):
+    return {"HALF": (2**64 - 1) // 2, "HALF+1": (2**64 - 1) // 2 + 1, "MAX-4096": 2**64 - 1 - 4096}.get(x, x)
+
+
+def case_huge(rng):
+    """requests far above the largest bin (2^31+1, 2^32, 2^32+5, 2^40, SIZE_MAX/2 ...) on the `fake` parent, which serves
+    them without real memory: they must go to the parent (never a chunk: a size truncated to 32 bits would look small),
+    bytes_active unchanged; calloc products that do not fit a size_t must be refused; small witnesses in between"""
+    b = Builder(rng, parent="fake")
+    for _ in range(rng.randint(1, 4)):
+        b.acq(rng.choice([1, 32, 33, 512, 513, 4000]))
+    for _ in range(rng.randint(4, 14)):
+        r = rng.random()
+        if r < 0.35:
+            sz = rng.choice(HUGE + UNBACKED)
+            b.n += 1
+            b.ops.append(f"acq p{b.n} {sz}")
+            b.live.append([f"p{b.n}", _val(sz)])
+        elif r < 0.6 and b.live:
+            e = rng.choice(b.live)
+            if e[1] <= 2**41:                     # an unbacked block can only be released
+                new = rng.choice(HUGE + HUGE + [1, 32, 512, 513, 4096])
+                b.ops.append(f"realloc {e[0]} {e[1]} {new}")
+                e[1] = new
+        elif r < 0.8:
+            # a product that wraps: (2^61+1)*8 = 8 mod 2^64, 2^32 * 2^32 = 0, ...
+            num, size = rng.choice([(2**61 + 1, 8), (2**32, 2**32), (2**63, 2), (2**62 + 3, 4), (2**64 - 1, 2), (3, "HALF"),
+                                    (2**33 + 1, 2**31), (2**60 + 4, 16)])
+            b.n += 1
+            b.ops.append(f"calloc p{b.n} {num} {size}")
+        elif r < 0.9:
+            b.acq(rng.choice(SIZES))
+        elif b.live:
+            b.rel(rng.randrange(len(b.live)))
+    b.tags["huge"] = 1
+    b.release_all(rng.choice(ORDERS))
+    return b.finish()
+
+
 def exhaustive_cases(depth, cls=512):
     """small scope: a page of the given class one chunk short of exhaustion, then every sequence of
     the given length over {acquire, release oldest / newest / middle, realloc newest across the boundary}"""
@@ -659,6 +740,11 @@ def gen_cases(rng, tier):
         cases.append(Case([f"new mt=0 {par}", "acq p1 5000", "acq p2 600", "acq p3 5000", "acq p4 48", "realloc p1 5000 600",
                            "realloc p3 5000 4096", "realloc p3 4096 4097", "realloc p3 4097 513", "realloc p2 600 5000",
                            "realloc p2 5000 4095", "rel p4", "rel p1", "rel p2", "rel p3", "destroy"], {"parent": par, "cross4096": 4}))
+    for _ in range(60 if quick else 1500):
+        cases.append(case_huge(rng))
+    cases.append(Case(["new mt=0 fake", "acq p1 32", "acq p2 4294967301", "acq p3 2147483649", "realloc p1 32 4294967296",
+                       "realloc p1 4294967296 4294967328", "calloc p9 2305843009213693953 8", "calloc p8 4294967296 4294967296",
+                       "acq p4 HALF", "active", "rel p4", "rel p2", "rel p3", "realloc p1 4294967328 16", "rel p1", "destroy"], {"huge": 1}))
     cases += fullpage_cases(rng, tier)
     cases += exhaustive_cases(4 if quick else 6)
     if not quick:
@@ -668,6 +754,16 @@ def gen_cases(rng, tier):
 
 # ------------------------------------------------------------------ direct oracle
 _kv = re.compile(r"(\w+)=(-?\d+)")
+
+
+def psize(tok):
+    """sizes of the op language: decimal, MAX, MAX-k, HALF, HALF+k, HALF-k"""
+    M = 2 ** 64 - 1
+    for name, base in (("MAX", M), ("HALF", M // 2)):
+        if tok.startswith(name):
+            r = tok[len(name):]
+            return base + int(r) if r else base
+    return int(tok)
 
 
 def oracle(case, lines):
@@ -762,23 +858,30 @@ def oracle(case, lines):
             idn, bad = ident(op, t[1])
             if bad:
                 break
-            size = int(t[2])
+            size = psize(t[2])
+            if idn and size > c["MAX_BIN"]:
+                errs.append(f"{op}: a request of {size} bytes (> largest bin {c['MAX_BIN']}) was served from a bin page {idn} instead of the parent")
+                break
             live[t[1]] = dict(size=size, ident=idn, cls=cls_of(size) if idn else 0)
             status(op)
+        elif t[0] == "calloc" and psize(t[2]) * psize(t[3]) >= 2 ** 64:
+            l = nxt()
+            if l != "P calloc refused":
+                errs.append(f"{op}: num*size does not fit a size_t, the library must refuse (fatal assert) and return no block: {l}")
         elif t[0] == "calloc":
             idn, bad = ident(op, t[1])
             if bad:
                 break
-            size = int(t[2]) * int(t[3])
+            size = psize(t[2]) * psize(t[3])
             z = nxt()
             if z != f"P zero={size}":
                 errs.append(f"{op}: calloc block not all zero: {z}")
             live[t[1]] = dict(size=size, ident=idn, cls=cls_of(size) if idn else 0)
             status(op)
         elif t[0] == "realloc":
-            old, new = int(t[2]), int(t[3])
+            old, new = psize(t[2]), psize(t[3])
             b = live.get(t[1])
-            if b is None or b["size"] != old:      # the harness answers bad-op (minimised replays)
+            if b is None or b["size"] != old or (old > 2 ** 41 and new != 0):      # the harness answers bad-op
                 nxt()
                 continue
             idn, bad = ident(op, t[1])
@@ -790,7 +893,11 @@ def oracle(case, lines):
                 del live[t[1]]
             else:
                 k = nxt()
-                if k != f"P kept={min(old, new)}":
+                if idn and new > c["MAX_BIN"] and idn != b["ident"]:
+                    errs.append(f"{op}: a request of {new} bytes (> largest bin) was served from a bin page {idn} instead of the parent")
+                    break
+                tch = lambda n: n if n <= 2 ** 20 else 256 if n <= 2 ** 41 else 0
+                if k != f"P kept={min(tch(old), tch(new))}":
                     errs.append(f"{op}: realloc did not preserve the first min(old,new)={min(old, new)} bytes: {k}")
                 if idn and idn == b["ident"]:
                     cls = b["cls"]       # same chunk
@@ -833,7 +940,7 @@ def nontrivial(case):
 
 def distribution(cases, c_out):
     d = {"acq": 0, "calloc": 0, "realloc": 0, "rel": 0, "destroy": 0, "mt1": 0, "cross_boundary_reallocs": 0, "drain_cases": 0,
-         "exhaustive_cases": 0, "fullpage_cases": 0, "parents": {}, "reallocs_across_4096": 0, "small_results": 0, "big_results": 0, "pages_obtained_max": 0, "quiescent_points": 0}
+         "exhaustive_cases": 0, "fullpage_cases": 0, "parents": {}, "reallocs_across_4096": 0, "huge_cases": 0, "small_results": 0, "big_results": 0, "pages_obtained_max": 0, "quiescent_points": 0}
     for i, c in enumerate(cases):
         for o in c.ops:
             k = o.split()[0]
@@ -843,6 +950,7 @@ def distribution(cases, c_out):
                 d["mt1"] += 1
         d["cross_boundary_reallocs"] += c.tags.get("cross", 0)
         d["reallocs_across_4096"] += c.tags.get("cross4096", 0)
+        d["huge_cases"] += 1 if c.tags.get("huge") else 0
         if c.tags.get("parent"):
             d["parents"][c.tags["parent"]] = d["parents"].get(c.tags["parent"], 0) + 1
         d["drain_cases"] += 1 if c.tags.get("drain") else 0
